@@ -513,7 +513,12 @@ pub fn swarm(prop: Prop, r: &mut Rng, pools: &Pools, corpus_len: usize) -> Swarm
         let nt = r.range(1, 4) as u8;
         prelude.push(TOp { task: 0, op: Op::Load { e: 0, voices: vec![v.clone()], via_files: false } });
         for _ in 0..r.range(0, 3) {
-            prelude.push(TOp { task: 0, op: Op::Set { e: 0, s: envelope_setter(r, 3, true) } });
+            // not the postfilter: beta > 0 costs ~1 ms per frame, thousands of calls would take minutes
+            let s = match envelope_setter(r, 3, true) {
+                Setter::Beta(x) => Setter::Alpha(x),
+                s => s,
+            };
+            prelude.push(TOp { task: 0, op: Op::Set { e: 0, s } });
         }
         // n distinct short utterances: the first line walks through the corpus, so no two are equal
         let start = r.below(corpus_len);
